@@ -275,7 +275,14 @@ fn chain_covers(pieces: &[Seg], e: Seg) -> bool {
 // ---------------------------------------------------------------------------------------------
 // C14
 
+/// the input edge s carries the sub-segment p-q: exactly collinear, or (inexact families, whose division points are
+/// computed) both ends within the tolerance of s
+fn carrier(s: Seg, p: P, q: P, tol: f64) -> bool {
+    (orient(s.0, s.1, p) == 0.0 && orient(s.0, s.1, q) == 0.0) || (tol > 0.0 && dist_point_seg(p, s) <= tol && dist_point_seg(q, s) <= tol)
+}
+
 pub fn c14(case: &Case, obs: &mut Obs) -> Result<(), Failure> {
+    let tol = case.tol();
     let (ea, eb) = (mp_edges(&case.a), mp_edges(&case.b));
     for op in OPS {
         let run = run_stage(&case.a, &case.b, op).map_err(|p| panic_failure(op_name(op), &p))?;
@@ -296,7 +303,32 @@ pub fn c14(case: &Case, obs: &mut Obs) -> Result<(), Failure> {
             if p == q {
                 continue;
             }
-            let m = pt(p.x + (q.x - p.x) / 2.0, p.y + (q.y - p.y) / 2.0);
+            // A sub-segment whose right event was not processed (the sweep of intersection / difference stopped early) may
+            // still be cut further to the right: its flags describe it next to its left end only, so the side points
+            // are taken before the first contact with any other input edge.
+            let fully = match e.get_other_event() {
+                Some(o) => run.processed.iter().any(|x| Rc::ptr_eq(x, &o)),
+                None => false,
+            };
+            let mut frac = 0.5;
+            if !fully {
+                let mut tmin = 1.0f64;
+                for &s in ea.iter().chain(eb.iter()) {
+                    if carrier(s, p, q, tol) || !touches(s, (p, q)) {
+                        continue;
+                    }
+                    let c = approx_intersection(s, (p, q)).or_else(|| [s.0, s.1].iter().cloned().find(|v| on_seg((p, q), *v)));
+                    if let Some(c) = c {
+                        let t = if (q.x - p.x).abs() >= (q.y - p.y).abs() { (c.x - p.x) / (q.x - p.x) } else { (c.y - p.y) / (q.y - p.y) };
+                        if t > 1e-9 && t < tmin {
+                            tmin = t;
+                        }
+                    }
+                }
+                frac = tmin / 2.0;
+                obs.count("subsegments_not_fully_processed", 1);
+            }
+            let m = pt(p.x + (q.x - p.x) * frac, p.y + (q.y - p.y) * frac);
             let vertical = p.x == q.x;
             let twin = (0..lefts.len()).find(|&j| j != i && same_seg(segs[j], segs[i]));
             let scale = (q.x - p.x).abs().max((q.y - p.y).abs());
@@ -316,7 +348,8 @@ pub fn c14(case: &Case, obs: &mut Obs) -> Result<(), Failure> {
                 let degenerate = above == m || below == m;
                 let clear = !degenerate
                     && (0..segs.len()).all(|j| j == i || Some(j) == twin || same_seg(segs[j], segs[i]) || !touches(segs[j], probe))
-                    && ea.iter().chain(eb.iter()).all(|&s| (orient(s.0, s.1, p) == 0.0 && orient(s.0, s.1, q) == 0.0) || !touches(s, probe));
+                    && (tol == 0.0 || d >= 1e3 * tol)
+                    && ea.iter().chain(eb.iter()).all(|&s| carrier(s, p, q, tol) || !touches(s, probe));
                 if clear {
                     ok = true;
                     break;
@@ -326,6 +359,17 @@ pub fn c14(case: &Case, obs: &mut Obs) -> Result<(), Failure> {
             // the probe must cross e itself (m is only approximately on e)
             if !ok || !touches((p, q), (above, below)) {
                 obs.count("subsegments_skipped_unclear_sidepoints", 1);
+                if !ok {
+                    // why?
+                    let probe = (above, below);
+                    let by_sub = (0..segs.len()).any(|j| j != i && Some(j) != twin && !same_seg(segs[j], segs[i]) && touches(segs[j], probe));
+                    let by_in = ea.iter().chain(eb.iter()).any(|&s| !(orient(s.0, s.1, p) == 0.0 && orient(s.0, s.1, q) == 0.0) && touches(s, probe));
+                    obs.count(if above == m || below == m { "skip_degenerate" } else if by_sub && by_in { "skip_both" } else if by_sub { "skip_by_subsegment" } else { "skip_by_input_edge" }, 1);
+                    if vertical { obs.count("skip_vertical", 1); }
+                    if !done_flag(&run, e) { obs.count("skip_not_fully_processed", 1); }
+                } else {
+                    obs.count("skip_probe_misses_e", 1);
+                }
                 continue;
             }
             let (ex, ey) = if e.is_subject { (&ea, &eb) } else { (&eb, &ea) };
@@ -871,4 +915,11 @@ pub fn near_collinear_strategy() -> proptest::strategy::BoxedStrategy<crate::pro
         SegPair { s1: ((-v.0, -v.1), v), s2, subj: (sa, sb), in_out: (false, false), f32: false, integer: false }
     });
     prop_oneof![3 => near, 2 => bigt, 2 => orig].boxed()
+}
+
+fn done_flag(run: &StageRun, e: &Ev) -> bool {
+    match e.get_other_event() {
+        Some(o) => run.processed.iter().any(|x| Rc::ptr_eq(x, &o)),
+        None => false,
+    }
 }
